@@ -107,6 +107,31 @@ class LoopSpec:
         self.on_iteration_start = on_iteration_start
 
 
+class OpaqueStr:
+    """text built by formatting (error messages, progress output): its value is not modelled.  Deliberately NOT a str, so that it can
+    never be mistaken for real data (its length, its content) by a sidecar model; further string operations on it stay opaque."""
+
+    def __add__(self, o):
+        return OpaqueStr()
+
+    __radd__ = __mod__ = __add__
+
+    def __getattr__(self, name):
+        if name.startswith("pyvc_") or name.startswith("__"):
+            raise AttributeError(name)
+
+        def method(*a, **k):
+            return OpaqueStr()
+        method.pyvc_pure = True
+        return method
+
+    def pyvc_copy(self):
+        return self
+
+    def __repr__(self):
+        return "<formatted text>"
+
+
 class MappedSeq:
     """value of a generator expression / list comprehension over a symbolic sequence"""
 
@@ -365,7 +390,7 @@ class Interp:
             raise PyvcUnsupported(f"operator {type(e.op).__name__}")
         l, r = self.ev(e.left, st), self.ev(e.right, st)
         if isinstance(l, str) and isinstance(e.op, ast.Mod):
-            return "<str>"                 # '%...' % values: text only, value irrelevant
+            return OpaqueStr()             # '%...' % values: text only, value irrelevant
         with self._ctx(st):
             return op(l, r)
 
@@ -460,7 +485,7 @@ class Interp:
         if isinstance(getattr(f, "__self__", None), str):
             if self.str_hook is not None:
                 return self.str_hook(f.__self__, f.__name__, args, kw)
-            return "<str>"                 # text formatting (error messages): value irrelevant
+            return OpaqueStr()             # text formatting (error messages): value irrelevant
         if f in _SAFE_CALLABLES or getattr(f, "pyvc_pure", False):
             with self._ctx(st):
                 return f(*args, **kw)
@@ -498,7 +523,33 @@ class Interp:
         raise PyvcUnsupported("lambda")
 
     def ev_JoinedStr(self, e, st):
-        return "<str>"
+        """f-string.  Without a sidecar str_hook: opaque text.  With one: rewritten to the equivalent  pattern.format(*values)  (format
+        specs must be concrete) and handed to the hook, so f-strings and str.format are modelled alike."""
+        if self.str_hook is None:
+            return OpaqueStr()
+        pattern, args = "", []
+        for part in e.values:
+            if isinstance(part, ast.Constant):
+                pattern += str(part.value).replace("{", "{{").replace("}", "}}")
+                continue
+            if not isinstance(part, ast.FormattedValue):
+                return OpaqueStr()
+            spec = ""
+            if part.format_spec is not None:
+                for sp in part.format_spec.values:
+                    if isinstance(sp, ast.Constant):
+                        spec += str(sp.value)
+                    elif isinstance(sp, ast.FormattedValue) and sp.format_spec is None and sp.conversion == -1:
+                        v = self.ev(sp.value, st)
+                        if not isinstance(v, (int, str)) or isinstance(v, bool):
+                            return OpaqueStr()
+                        spec += str(v)
+                    else:
+                        return OpaqueStr()
+            conv = {-1: "", 115: "!s", 114: "!r", 97: "!a"}.get(part.conversion, "")
+            pattern += "{" + conv + (":" + spec if spec else "") + "}"
+            args.append(self.ev(part.value, st))
+        return self.str_hook(pattern, "format", args, {})
 
     class _C:
         def __init__(self, interp, st):
